@@ -152,4 +152,9 @@ theorem NoDup_mergeAll (l : List DMap) : NoDup (mergeAll l) := by
 @[simp] theorem setAt_same {α : Type} (f : Nat → α) (i : Nat) (x : α) : setAt f i x i = x := by simp [setAt]
 theorem setAt_other {α : Type} (f : Nat → α) {i j : Nat} (x : α) (h : j ≠ i) : setAt f i x j = f j := by simp [setAt, h]
 
+/-- the source says `collectors.size() == 1` (generated constant); an edit of that literal breaks this lemma and
+    everything that stands on it -/
+theorem fastPath_def (n : Nat) (temp : Temporality) : fastPath n temp = (n == 1 && temp == .delta) := by
+  simp [fastPath, Gen.temporalFastPathCollectors]
+
 end Otel.Temporal
